@@ -153,6 +153,7 @@ class Harness:
         if d.get('zero_fork_inputs') or self.cfg.get('zero_fork_inputs'):
             for l in self.circuit.lines:
                 if l.reader.kind == '__fork__': arr[:, l.index] = 0
+        if d.get('ndim3') and arr.shape[0] == 1: arr = arr[0]      # the documented 3-dimensional form (one dataset)
         return arr
 
     def caps(self):
